@@ -149,7 +149,12 @@ class Emit:
                 import hashlib
                 nm = 'arr_' + hashlib.md5(key.encode()).hexdigest()[:10]
                 s.arrs[key] = nm
-                s.pre.append('struct %s { %s a[%d]; };' % (nm, s.ct(t.el), max(t.n,1)))
+                if t.n == 1:
+                    # length-1 arrays (mpz_t, mpq_t ...) become a plain member `a`: CBMC 6.11 mis-simplifies reads through a
+                    # length-1 array member behind a pointer to a symbolically indexed element (units/dis_interval/cbmc_simplifier_bug.c)
+                    s.pre.append('struct %s { %s a; };' % (nm, s.ct(t.el)))
+                else:
+                    s.pre.append('struct %s { %s a[%d]; };' % (nm, s.ct(t.el), max(t.n,1)))
             return 'struct ' + s.arrs[key]
         if k == 'struct':
             key = tstr(t)
@@ -250,7 +255,7 @@ class FnEmit:
             while not p.eat(end):
                 it = p.type(); items.append(s.val(p, it)); p.eat(',')
             inner = ', '.join(items)
-            if x == '[': inner = '{' + inner + '}'
+            if x == '[' and not (t.k == 'arr' and t.n == 1): inner = '{' + inner + '}'
             return '{' + inner + '}'
         raise Err('val? %s' % x)
     def constexpr(s, p, op):
@@ -288,7 +293,12 @@ class FnEmit:
                 m = re.fullmatch(r'\(\(uint\d+_t\)(\d+)ULL\)', ix)
                 n = int(m.group(1)); e = '%s.f%d' % (e, n); t = rt.fs[n]
             elif rt.k == 'arr':
-                e = '%s.a[%s]' % (e, s.sidx(ix, it)); t = rt.el
+                if rt.n == 1:
+                    six = s.sidx(ix, it)
+                    e = ('%s.a' % e) if six == '((int64_t)0LL)' else ('(&%s.a)[%s]' % (e, six))
+                else:
+                    e = '%s.a[%s]' % (e, s.sidx(ix, it))
+                t = rt.el
             else: raise Err('gep into ' + tstr(rt))
         return '(&%s)' % e, t
     def setreg(s, name, t, expr):
@@ -533,7 +543,7 @@ class FnEmit:
             while p.eat(','):
                 n = int(p.next()); r = s.resolve(rt)
                 if r.k == 'struct': e += '.f%d' % n; rt = r.fs[n]
-                else: e += '.a[%d]' % n; rt = r.el
+                else: e += ('.a' if r.n == 1 else '.a[%d]' % n); rt = r.el
             s.setreg(reg, rt, e)
         elif op == 'insertvalue':
             t = p.type(); v = s.val(p, t); p.expect(','); et = p.type(); ev = s.val(p, et)
@@ -542,7 +552,7 @@ class FnEmit:
             while p.eat(','):
                 n = int(p.next()); r = s.resolve(rt)
                 if r.k == 'struct': path += '.f%d' % n; rt = r.fs[n]
-                else: path += '.a[%d]' % n; rt = r.el
+                else: path += ('.a' if r.n == 1 else '.a[%d]' % n); rt = r.el
             s.setreg(reg, t, v)
             s.out.append('  r_%s%s = %s;' % (cname(reg), path, ev))
         else:
@@ -641,7 +651,7 @@ def main():
             while i < len(raw):
                 if raw[i] == '\\': vals.append(int(raw[i+1:i+3], 16)); i += 3
                 else: vals.append(ord(raw[i])); i += 1
-            gl.append('%s%s %s = {{%s}};' % (st, E.ct(t), cname(g), ','.join(map(str, vals))))
+            gl.append(('%s%s %s = {%s};' if (t.k == 'arr' and t.n == 1) else '%s%s %s = {{%s}};') % (st, E.ct(t), cname(g), ','.join(map(str, vals))))
         elif init in ('zeroinitializer', None) or ext:
             try: gl.append('%s%s %s;' % (('extern ' + ('const ' if mm.group(2) == 'constant' else '')) if ext else st, E.ct(t), cname(g)))
             except Err: pass
